@@ -670,6 +670,25 @@ var scenarios = map[string]scenFn{
 	// between two transport writes of it (TLS 1.0: the 1-byte record and the rest) -- and is lifted again; a second
 	// Write follows. Whatever Write reports as written must be what the peer gets.
 	"writedeadline-write-write":    func(x *env) { writeDeadlineWrites(x, payA) },
+	// a write deadline expiring (set by a third thread) while Close sends its close_notify, beside a pending Read:
+	// whatever the alert write answers, Close must release the transport, so the parked Read and the peer return.
+	"writedeadline-close-read": func(x *env) {
+		c, s, o := x.c, x.s, x.o
+		if !handshakeQuietly(c, s, o) {
+			return
+		}
+		var wg, pw vsched.WaitGroup
+		spawn(&pw, func() { peerReadAll(s, o) })
+		spawn(&wg, func() {
+			buf := make([]byte, 16)
+			n, err := c.Read(buf)
+			o.put("read", fmt.Sprintf("%d/%s", n, errs(err)))
+		})
+		spawn(&wg, func() { o.put("close", errs(c.Close())) })
+		spawn(&wg, func() { o.put("wdeadline", errs(c.SetWriteDeadline(time.Unix(1, 0)))) })
+		wg.Wait()
+		pw.Wait()
+	},
 	"writedeadline-bigwrite-write": func(x *env) { writeDeadlineWrites(x, payBig) },
 	// S21 (TLS 1.3, tickets enabled): the NewSessionTicket the server sent after its Finished is processed
 	// inside the client's Read, concurrently with Write and ConnectionState.
@@ -965,6 +984,17 @@ func judge(j job, res vsched.Result, o *obs) (string, string) {
 			case w != "nil" && !cutOK(j, o.peer, payA):
 				return "peer received a partial or altered payload", fmt.Sprintf("%q", o.peer)
 			}
+		}
+	case "writedeadline-close-read":
+		// Close answers nil, or the timeout of its close_notify write, or an error: any of them, but it answers
+		if _, ok := o.get("close"); !ok {
+			return "Close did not return", ""
+		}
+		if r := g("read"); !strings.HasPrefix(r, "0/") || r == "0/nil" {
+			return "Read returned data or no error although the peer never wrote", r
+		}
+		if len(o.peer) != 0 {
+			return "peer received application data although none was written", fmt.Sprintf("%q", trunc(o.peer))
 		}
 	case "writedeadline-write-write", "writedeadline-bigwrite-write":
 		first := payA
@@ -1313,6 +1343,10 @@ func jobsFor(thorough, race bool) []job {
 			continue // quick race pass: TLS 1.0 (two transport writes per Write) and 1.3
 		}
 		out = append(out, job{Scen: "writedeadline-write-write", Vers: v, PB: pb, Race: race})
+		if v != tls.VersionTLS10 && (thorough || !race) {
+			// Close || SetWriteDeadline(past) || pending Read: the deadline can expire just before the close_notify write
+			out = append(out, job{Scen: "writedeadline-close-read", Vers: v, PB: pb, Race: race})
+		}
 		if thorough && v == tls.VersionTLS12 {
 			out = append(out, job{Scen: "writedeadline-bigwrite-write", Vers: v, PB: 1, Race: race})
 		}
@@ -1378,7 +1412,7 @@ func main() {
 			"Scenarios (each at TLS 1.2 and 1.3 unless noted; PB in the quick tier in brackets, thorough +1): after a quiet handshake: write||write [2], read||write [2], read||close [2], write||close [2], read||SetDeadline [2], CloseWrite||write||ConnectionState [1], peer KeyUpdate during read||write (1.3) [2], read||read [2], " +
 			"peer Close (close_notify) during pending read||write [1], peer transport dropped without close_notify during pending read||write [1], 20000-byte write (several records) || short write [1], write||write at TLS 1.0 with a CBC suite (1/n-1 record split) [1], close||close [1], CloseWrite||read then peer data (half-close) [1], SetDeadline||write [1], SetReadDeadline||SetWriteDeadline||read [1], NewSessionTicket processing inside read||write||ConnectionState (1.3, tickets enabled) [1]; " +
 			"on a FRESH connection (the handshake itself is explored, the peer handshakes on its own thread): handshake||handshake||ConnectionState [1], write||read||ConnectionState with implicit handshakes [1; thorough stays at 1 and adds read||write at 2], write||close [1], close||handshake [1]. " +
-			"WRITE DEADLINE (TLS 1.0/CBC, 1.2, 1.3): SetWriteDeadline(past) then SetWriteDeadline(none) from one thread while another runs Write -- the deadline can expire before any, or between two, transport writes of that Write (TLS 1.0: the 1-byte record and the rest; thorough: a 20000-byte payload at TLS 1.2) --, then a second Write, Close [1, thorough 2]: the peer must get exactly  P1 || P2  where Pi is the whole payload if Write i returned nil and a record-boundary prefix of it if it returned an error. " +
+			"WRITE DEADLINE (TLS 1.0/CBC, 1.2, 1.3): SetWriteDeadline(past) then SetWriteDeadline(none) from one thread while another runs Write -- the deadline can expire before any, or between two, transport writes of that Write (TLS 1.0: the 1-byte record and the rest; thorough: a 20000-byte payload at TLS 1.2) --, then a second Write, Close [1, thorough 2]: the peer must get exactly  P1 || P2  where Pi is the whole payload if Write i returned nil and a record-boundary prefix of it if it returned an error; and (TLS 1.2, 1.3; race pass: thorough) Close || SetWriteDeadline(past) || pending Read, where the deadline can expire between Close's own deadline and its close_notify write: Close, the parked Read and the peer's Read must all return [1, thorough 2]. " +
 			"RENEGOTIATION (TLS 1.2 and TLS 1.0/CBC, client under test with Renegotiation=RenegotiateFreelyAsClient, OCSP staple so that the second handshake rewrites Conn.ocspResponse besides version, suite, didResume, serverName, finished values, keys): the peer sends a HelloRequest after the first handshake and the client's Read runs the second handshake (explored, not quiet) while another thread runs {ConnectionState, VerifyHostname, OCSPResponse} or Write; once with the peer REFUSING the new ClientHello (what zcrypto and crypto/tls servers do: alert), once with the peer SERVING the renegotiation through an in-package scaffold (RFC 5746 3.7 server side) and sending data under the new keys afterwards [1, thorough 2 for the refused ones]. " +
 			"The connection under test is the client end; write||close (fresh), peer-close, big write and close||close are repeated with the SERVER end under test (thorough: also fresh write||read||state, read||write, read||close, peer drop, CloseWrite||read). Thorough additionally offers 1-byte transport reads as an environment deviation for the scenarios with a quiet handshake. " +
 			"Race pass: PB 1 (0 for the fresh-connection scenarios), thorough +1. Oracle per execution: no panic, no deadlock, no livelock (step horizon), every call returns, each writer's bytes arrive contiguous, unmodified and exactly once (or not at all when the write was cut by a close), readers get whole records, a pending read/write returns once the peer closed or the deadline expired; renegotiation: a refused attempt ends Read with an error, a served one completes and the data sent after it arrives, a Write beside it arrives whole (before the ClientHello or under the new keys) or fails. A worker process that dies with a Go runtime fatal error / unrecovered panic in the code under test is a violation (worker crash), not an incomplete run. states = executions.")
